@@ -115,6 +115,12 @@ class DH(Config):
         CALLS.append(("post_init", id(self)))
 
 
+class S1(Config):
+    """Saved by this version of the program, loaded by the next one (xvschema.cfg3) where it has a new required parameter"""
+
+    a: Param[int]
+
+
 def _seven():
     return 7
 
